@@ -131,23 +131,10 @@ Error ArenaBitSet::_resize(Arena& arena, size_t new_size, size_t ideal_capacity,
   // bits per bit-word and contains either all zeros or all ones.
   BitWord pattern = Support::bool_as_mask<BitWord>(new_bits_value);
 
-  // First initialize the last bit-word of the old size.
+  // First initialize the last bit-word of the old size - the new bits start at `start_bit`. If the new size ends in the same
+  // bit-word the bits above it are cleared below, so there is no need to be extra careful here.
   if (start_bit) {
-    size_t num_bits = 0;
-
-    if (idx == (new_size / Support::bit_size_of<BitWord>)) {
-      // The number of bit-words is the same after the resize. In that case
-      // we need to set only bits necessary in the current last bit-word.
-      ASMJIT_ASSERT(start_bit < end_bit);
-      num_bits = end_bit - start_bit;
-    }
-    else {
-      // There is be more bit-words after the resize. In that case we don't
-      // have to be extra careful about the last bit-word of the old size.
-      num_bits = Support::bit_size_of<BitWord> - start_bit;
-    }
-
-    data[idx++] |= pattern << num_bits;
+    data[idx++] |= pattern << start_bit;
   }
 
   // Initialize all bit-words after the last bit-word of the old size.
@@ -156,9 +143,9 @@ Error ArenaBitSet::_resize(Arena& arena, size_t new_size, size_t ideal_capacity,
     data[idx++] = pattern;
   }
 
-  // Clear unused bits of the last bit-word.
+  // Clear unused bits of the last bit-word (it can be the last bit-word of the old size, so only mask it).
   if (end_bit) {
-    data[end_index - 1] = pattern & ((BitWord(1) << end_bit) - 1);
+    data[end_index - 1] &= (BitWord(1) << end_bit) - 1;
   }
 
   _size = uint32_t(new_size);
